@@ -39,3 +39,46 @@ Fixpoint fee_list_eqb (a b : list fee_entry) : bool :=
 
 Definition bf_mismatch (c : bf_case) : bool :=
   negb (fee_list_eqb (all_batch_fees (bf_max c) (bf_pool c)) (bf_obs c)).
+
+(* ------------------------------------------------------------------ *)
+(* real x/gov Tally (48 in-process replays, all equal) vs the model on the same votes *)
+Record tally_case := mk_tally_case { tc_acc : tally; tc_vals : list gov_val; tc_obs : Z * Z * Z * Z }.
+
+Definition quad_eqb (a b : Z * Z * Z * Z) : bool :=
+  let '(a1, a2, a3, a4) := a in let '(b1, b2, b3, b4) := b in (a1 =? b1) && (a2 =? b2) && (a3 =? b3) && (a4 =? b4).
+
+Definition tally_mismatch (c : tally_case) : bool :=
+  negb (quad_eqb (tally_counts (tc_acc c) (tc_vals c)) (tc_obs c)) ||
+  (* and the model itself on the reversed validator list *)
+  negb (quad_eqb (tally_counts (tc_acc c) (rev (tc_vals c))) (tc_obs c)).
+
+(* real UpdateProposalOracles vs upo: Some l = accepted and exactly the oracles l (store order) went offline *)
+Record upo_case := mk_upo_case { uc_max : Z; uc_all : list orc; uc_old : list Z; uc_new : list Z; uc_obs : option (list Z) }.
+
+Fixpoint zlist_eqb (a b : list Z) : bool :=
+  match a, b with [], [] => true | x :: a', y :: b' => (x =? y) && zlist_eqb a' b' | _, _ => false end.
+
+Definition upo_mismatch (c : upo_case) : bool :=
+  match upo (uc_max c) (uc_all c) (uc_old c) (uc_new c), uc_obs c with
+  | None, None => false
+  | Some l, Some l' => negb (zlist_eqb l l') || negb (match upo (uc_max c) (uc_all c) (rev (uc_old c)) (rev (uc_new c)) with Some l2 => zlist_eqb l l2 | None => false end)
+  | _, _ => true
+  end.
+
+(* real pruneAttestations (inside a Claim that was observed): attestation nonces before (plus the claim's own),
+   last observed nonce after, nonces after *)
+Record prune_case := mk_prune_case { pc_keep : Z; pc_last : Z; pc_before : list Z; pc_after : list Z }.
+
+Definition prune_mismatch (c : prune_case) : bool :=
+  let m := prune (pc_keep c) (pc_last c) (pc_before c) in
+  negb (forallb (fun k => Bool.eqb (match m k with Some _ => true | None => false end) (member_of k (pc_after c))) (pc_before c) &&
+        forallb (fun k => member_of k (pc_before c)) (pc_after c)).
+
+(* real map -> map rebuilds of app/ (GetMaccPerms, ModuleAccountAddrs): two calls' iteration orders of the
+   same entries give the same map *)
+Record rb_case := mk_rb_case { rb_a : list (Z * Z); rb_b : list (Z * Z) }.
+
+Definition rb_mismatch (c : rb_case) : bool :=
+  negb (forallb (fun e => match rebuild (rb_a c) (fst e), rebuild (rb_b c) (fst e) with
+                          | Some x, Some y => (x =? y) && (x =? snd e) | _, _ => false end) (rb_a c) &&
+        (Z.of_nat (length (rb_a c)) =? Z.of_nat (length (rb_b c)))).
